@@ -13,6 +13,7 @@ import (
 	"fmt"
 	"go/ast"
 	"go/parser"
+	"go/printer"
 	"go/token"
 	"os"
 	"path/filepath"
@@ -351,6 +352,100 @@ func has(list []string, s string) bool {
 		}
 	}
 	return false
+}
+
+// ---------- inventories of declared state ----------
+// The models describe every object by a fixed set of state components (the store: the directory and the
+// configured parameter sets; the agent: configuration, queues, policy, hooks; a session factory: key and
+// lifetime; ...) and keep NO other state between operations.  These facts list what the code declares:
+// package-level variables and the fields of the structs the models describe.  A cache, a pool, a
+// counter or a remembered pointer added anywhere changes a fact and so a proof obligation.
+func (p *pkg) typeString(e ast.Expr) string {
+	var b strings.Builder
+	if err := printer.Fprint(&b, p.fset, e); err != nil {
+		return exprString(e)
+	}
+	return strings.Join(strings.Fields(b.String()), " ")
+}
+
+func (p *pkg) pkgVars() string {
+	var out []string
+	for _, af := range p.sortedFiles() {
+		for _, d := range af.Decls {
+			gd, ok := d.(*ast.GenDecl)
+			if !ok || gd.Tok != token.VAR {
+				continue
+			}
+			for _, sp := range gd.Specs {
+				vs, ok := sp.(*ast.ValueSpec)
+				if !ok {
+					continue
+				}
+				for i, id := range vs.Names {
+					t := ""
+					if vs.Type != nil {
+						t = p.typeString(vs.Type)
+					} else if i < len(vs.Values) {
+						if call, ok := vs.Values[i].(*ast.CallExpr); ok {
+							t = "= " + p.typeString(call.Fun) + "(...)"
+						} else {
+							t = "= " + p.typeString(vs.Values[i])
+						}
+					}
+					if len(t) > 60 {
+						t = t[:60]
+					}
+					out = append(out, id.Name+" "+t)
+				}
+			}
+		}
+	}
+	sort.Strings(out)
+	return strings.Join(out, "; ")
+}
+
+func (p *pkg) structFields(name string) (string, bool) {
+	for _, af := range p.sortedFiles() {
+		for _, d := range af.Decls {
+			gd, ok := d.(*ast.GenDecl)
+			if !ok || gd.Tok != token.TYPE {
+				continue
+			}
+			for _, sp := range gd.Specs {
+				ts, ok := sp.(*ast.TypeSpec)
+				if !ok || ts.Name.Name != name {
+					continue
+				}
+				stt, ok := ts.Type.(*ast.StructType)
+				if !ok {
+					return "", false
+				}
+				var out []string
+				for _, fl := range stt.Fields.List {
+					t := p.typeString(fl.Type)
+					if len(fl.Names) == 0 {
+						out = append(out, "(embedded) "+t)
+					}
+					for _, id := range fl.Names {
+						out = append(out, id.Name+" "+t)
+					}
+				}
+				return strings.Join(out, "; "), true
+			}
+		}
+	}
+	return "", false
+}
+
+func (f *facts) inventory(p *pkg, pkgName string, structs ...string) {
+	f.s("state_"+pkgName+"_package_vars", p.pkgVars(), "package-level variables of package "+pkgName)
+	for _, sn := range structs {
+		if v, ok := p.structFields(sn); ok {
+			f.s("state_"+pkgName+"_"+sn, v, "fields of "+pkgName+"."+sn)
+		} else {
+			f.miss("struct " + pkgName + "." + sn)
+		}
+	}
 }
 
 func main() {
@@ -770,6 +865,10 @@ func main() {
 		})
 	}
 	f.n("consumers_touch_dispatcher_chans", int64(touch), "hooks.go run/runAllHooks/runHook, remoteHTTPUpgrader: ops on s.* channels")
+
+	f.inventory(st, "store", "Dir", "UserHash", "Argon2IDHasher", "ScryptAuthHasher")
+	f.inventory(sasl, "sasl", "Server", "Client", "Request", "Response")
+	f.inventory(m, "main", "store", "Store", "webSessionFactory", "HooksCaller", "zxcvbnPolicy")
 
 	if len(f.missing) > 0 {
 		for _, m := range f.missing {
